@@ -59,3 +59,44 @@ claim("C03",
       + COMMON_NOTE,
       "Coq proof (loop invariant of the rewriter, weave/zip_new specification) + differential correspondence",
       "DESIGN.md section 6, C03")
+
+
+claim("C04",
+      "Theorem C04_check_readonly (Coq): for every tree, configuration, lock state, oracle and discovery outcome the "
+      "effect list of a check run of the driver model is empty, so the world after it and at every crash point of it "
+      "is the world before it. The weight is in the tie: the real binary runs --check under an LD_PRELOAD interposer "
+      "that logs every libc call able to create, write, rename, truncate, chmod or remove (whole process, tracked "
+      "and untracked paths) over small-scope/generated trees x lock states x cache x styles, failing configurations, "
+      "and runs with a signal or an I/O fault at every operation; the observed mutating set must be empty and the "
+      "project snapshot identical; the model's reports/exit are compared too.",
+      "Direct syscalls bypassing libc would be invisible to the interposer (the snapshot comparison still applies); "
+      "metadata (atime) is not compared." + COMMON_NOTE,
+      "Coq proof (no effect constructor on the check path) + interposer trace of the real binary",
+      "DESIGN.md section 6, C04")
+
+
+claim("C07",
+      "Theorem C07_crash_atomic (Coq): for EVERY tree, configuration, lock state, EVERY fault oracle (any file "
+      "failing at temp creation, at any write or flush, or at the rename; read failures; stop at any poll; failing "
+      "lock write) and EVERY kill point (any prefix of the effect list, the next write possibly partial): each "
+      "source file holds its original bytes or exactly the content it has after the complete run (characterised by "
+      "C03), and the number of files is unchanged. Proved by induction over per-file effect groups. Tie: for every "
+      "tracked operation of real runs (trees with 1-3 files, one larger than the write buffer) the process is killed "
+      "before/after it and the operation is failed with EIO/ENOSPC/EXDEV/EACCES; each file is compared byte for byte "
+      "with {original, complete}; the physical trace must have every write before the rename; fault runs are "
+      "compared with the model's prediction.",
+      "rename(2) atomicity and durability across power loss are the kernel's; async-std buffering is abstracted as "
+      "logical writes (the trace predicate checks the physical order)." + COMMON_NOTE,
+      "Coq proof (effect-prefix induction) + kill/fault enumeration on the real binary",
+      "DESIGN.md section 6, C07")
+
+claim("C08",
+      "Theorems C08_exit_zero_is_complete and C08_no_temp_left (Coq): for every tree and every combination of "
+      "injected failures, exit 0 implies that every file the run could read holds its complete new content, the IDs "
+      "listed are in those files and (absent a failed rename) the printed count equals the IDs written; no temporary "
+      "file survives a run that ends by itself. Tie: single and double faults (incl. every rename failing with EXDEV) "
+      "on the real binary, exit/files/lock/count compared with the model's candidates, predicate evaluated directly.",
+      "Which logical write sees a physical write error depends on async-std's buffer; the correspondence accepts any "
+      "of the model's candidate fault points for that file." + COMMON_NOTE,
+      "Coq proof (events of the insert pass) + fault enumeration on the real binary",
+      "DESIGN.md section 6, C08")
